@@ -313,8 +313,16 @@ def rv(x):
     if isinstance(x, int):
         return z3.RealVal(x)
     if isinstance(x, float):
-        if x != x or x in (float("inf"), float("-inf")):
-            raise ValueError("non-finite constant in symbolic arithmetic")
+        if x in (float("inf"), float("-inf")):
+            # an infinite constant mixed into symbolic arithmetic (np.where(cond, np.inf, v), a sentinel ...): modelled as a real number
+            # beyond every magnitude a float input can have -- x/inf is then "as good as zero" without being a special case of the model.
+            # Whatever is concluded from it is replayed on the real code before it is reported.
+            INF = z3.Real("pos_infinity")
+            if Engine.cur is not None:
+                Engine.cur.axiom(INF > z3.RealVal(10) ** 300)
+            return INF if x > 0 else -INF
+        if x != x:
+            raise ValueError("NaN constant in symbolic arithmetic")
         # the exact binary value (so that 2*c, c/2, c*1000 computed in float by the target stay consistent with the
         # same constants written in a harness oracle)
         return z3.RealVal(str(fractions.Fraction(x)))
